@@ -364,7 +364,7 @@ func init() {
 	}
 	intrinsics["(crypto.Hash).Size"] = func(e *Engine, st *State, fr *Frame, args []Value, in *ssa.Call) Value {
 		e.usedIntrinsic("(crypto.Hash).Size")
-		h := args[0].(*Term)
+		h := st.sub(args[0].(*Term))
 		// sizes of the registered hash identifiers (crypto.Hash documentation); unknown identifiers panic
 		sizes := map[int64]int64{1: 16, 2: 16, 3: 20, 4: 28, 5: 32, 6: 48, 7: 64, 8: 36, 9: 20, 10: 28, 11: 32, 12: 48, 13: 64, 14: 28, 15: 32, 16: 32, 17: 32, 18: 48, 19: 64}
 		if h.IsConst() {
